@@ -573,6 +573,11 @@ type Step struct {
 	// 1 Level(Disabled) - what is derived from here on is attached to a logger that emits nothing, until a later
 	// Level() re-enables a descendant; 2 Level(-128) - re-enable.  (Case.Run re-enables at the end of the chain if needed.)
 	Mute int
+	// Out: an Output() call after this step that changes where the chain's events go, and nothing else: 1 Output(nil) -
+	// New(nil) "writes" to io.Discard: what is derived from here on is a logger whose events are built, run their hooks
+	// and go nowhere, until a later Output() attaches a writer again; 2 Output(w) - the case's writer again.
+	// (Case.Run attaches the writer at the end of the chain if needed, unless Case.NoWriter.)
+	Out int
 }
 
 func ApplyStep(l zerolog.Logger, st Step, w zerolog.LevelWriter) zerolog.Logger {
@@ -599,9 +604,17 @@ func ApplyStep(l zerolog.Logger, st Step, w zerolog.LevelWriter) zerolog.Logger 
 	case 1:
 		l = l.Level(zerolog.Level(-128))
 	case 2:
-		l = l.Output(w)
+		if st.Out == 0 {
+			l = l.Output(w)
+		}
 	case 3:
 		l = l.Sample(nil)
+	}
+	switch st.Out {
+	case 1:
+		l = l.Output(nil)
+	case 2:
+		l = l.Output(w)
 	}
 	return l
 }
@@ -808,7 +821,9 @@ func DescribeOps(ops []Op) []interface{} {
 		}
 		if o.K == "log" && o.N != nil {
 			d["another_event_on_another_logger_and_writer"] = o.N.In.Describe()
-			if o.N.Late {
+			if o.N.After {
+				d["started_and_finalized"] = "after this event's finalizer has returned (a following event of the program)"
+			} else if o.N.Late {
 				d["finalized"] = "after this event's finalizer has returned"
 			} else {
 				d["finalized"] = "at once, before the next call on this event"
